@@ -261,6 +261,37 @@ def decorate(D, prog, outc):
             t[kind] = D.int(1, 2)
 
 
+def gen_chain(D, G):
+    """t0 -> t1 -> ... (2-4 tasks, one successor each) with one `fail` or
+    `succeed` command in a drawn clause of a drawn task, in front of or
+    behind the edge to the next task."""
+    n = D.int(2, 4)
+    names = ['t%d' % i for i in range(n)]
+    prog = {'name': 'wf', 'type': 'direct', 'tasks': {}, 'order': names,
+            'input': {}, 'defaults': None, 'output': None, 'lang': 'yaql',
+            'chain': True}
+    outc = {}
+    for i, nm in enumerate(names):
+        t = G.new_task()
+        t['form'] = {'action': D.choice(['noop', 'echo']),
+                     'single_as_string': D.bool(0.3), 'adv': D.bool(0.2)}
+        outc[nm] = [['ok', 'a'] if D.bool(0.75) else ['err', 'boom-' + nm]]
+        if i + 1 < n:
+            clause = 'on-success' if outc[nm][0][0] == 'ok' else 'on-error'
+            if D.bool(0.3):
+                clause = 'on-complete'
+            t[clause].append({'to': names[i + 1], 'guard': None})
+        prog['tasks'][nm] = t
+    src = D.choice(names)
+    t = prog['tasks'][src]
+    clause = D.choice(['on-success', 'on-error', 'on-complete'])
+    e = {'to': D.choice(['fail', 'succeed']), 'guard': None}
+    if D.bool(0.5):
+        e['msg'] = 'm %s %s' % (src, e['to'])
+    t[clause].insert(D.int(0, len(t[clause])), e)
+    return prog, outc
+
+
 def _self_pausing(prog):
     for p in [prog] + list(prog.get('subs') or []):
         for t in p['tasks'].values():
@@ -285,6 +316,18 @@ def strategy(max_tasks=6):
                     expr_failures=False, partial_joins=False,
                     state_commands=False, wi_subwf=False,
                     pause_cmd=D.bool(0.3))
+        if D.bool(0.2):
+            # `fail` / `succeed` commands only where nothing runs in
+            # parallel (a forced completion racing another branch is order
+            # dependent by the language): a plain chain
+            prog, outc = gen_chain(D, G)
+            plan = history.gen_plan(D, max_cmds=3, horizon=14,
+                                    kinds=('pause', 'resume', 'pause'))
+            if not plan:
+                plan = [{'at': D.int(0, 8), 'cmd': 'pause', 'sel': 0}]
+            return {'prog': prog, 'outcomes': outc, 'input': {},
+                    'sched': enginerun.gen_schedule(D, max_devs=3),
+                    'salt': D.int(0, 20), 'plan': plan}
         if D.bool(0.5):
             prog, outc = G.gen_nested(D, F, max_tasks)
         else:
